@@ -92,18 +92,19 @@ type MPerson struct {
 type pair struct{ P, G string }
 
 type Model struct {
-	Depts   map[string]string // id -> name
-	People  map[string]*MPerson
-	Badges  map[string]string  // id -> owner
-	Notes   map[string]*string // id -> about
-	Tickets map[string]*string // id -> assignee
-	Groups  map[string]bool
-	Links   map[pair]bool
-	Kudos   map[pair]int
+	Depts    map[string]string // id -> name
+	People   map[string]*MPerson
+	Badges   map[string]string  // id -> owner
+	BadgeSys map[string]bool    // id -> system flag (fixed at creation)
+	Notes    map[string]*string // id -> about
+	Tickets  map[string]*string // id -> assignee
+	Groups   map[string]bool
+	Links    map[pair]bool
+	Kudos    map[pair]int
 }
 
 func NewModel() *Model {
-	return &Model{Depts: map[string]string{}, People: map[string]*MPerson{}, Badges: map[string]string{},
+	return &Model{Depts: map[string]string{}, People: map[string]*MPerson{}, Badges: map[string]string{}, BadgeSys: map[string]bool{},
 		Notes: map[string]*string{}, Tickets: map[string]*string{}, Groups: map[string]bool{},
 		Links: map[pair]bool{}, Kudos: map[pair]int{}}
 }
@@ -139,6 +140,9 @@ func (m *Model) Clone() *Model {
 	}
 	for k, v := range m.Badges {
 		r.Badges[k] = v
+	}
+	for k, v := range m.BadgeSys {
+		r.BadgeSys[k] = v
 	}
 	for k, v := range m.Notes {
 		r.Notes[k] = cloneStrP(v)
@@ -233,6 +237,13 @@ func (m *Model) personSnap(p *MPerson, view string) string {
 	return jsonOf(s)
 }
 
+func sysMark(sys bool) string {
+	if sys {
+		return "system"
+	}
+	return ""
+}
+
 func simpleSnap(store, id string, name string, ref *string) string {
 	return jsonOf(map[string]any{"store": store, "id": id, "name": name, "ref": ref})
 }
@@ -258,7 +269,7 @@ func (m *Model) snapOf(store, id string) string {
 		}
 	case StBadges:
 		if o, ok := m.Badges[id]; ok {
-			return simpleSnap(store, id, "", &o)
+			return simpleSnap(store, id, sysMark(m.BadgeSys[id]), &o)
 		}
 	case StNotes:
 		if a, ok := m.Notes[id]; ok {
@@ -493,10 +504,18 @@ func (m *Model) applyCreate(op Op, now int64) Outcome {
 		if owner == "" {
 			return reject("owner-empty", EcAny)
 		}
+		var a acc
 		if _, ok := m.People[owner]; !ok {
-			return reject("owner-missing", EcNotFound)
+			a.add("owner-missing", EcNotFound)
+		}
+		if op.IsSys && !op.Sys {
+			a.add("sys-create", EcAny)
+		}
+		if a.bad() {
+			return a.out()
 		}
 		m.Badges[id] = owner
+		m.BadgeSys[id] = op.IsSys
 		return Outcome{OK: true, Events: []Ev{{StBadges, EvCreate, id, m.snapOf(StBadges, id), false}}}
 	case StNotes, StTickets:
 		tbl := m.Notes
@@ -697,13 +716,19 @@ func (m *Model) applyUpdate(op Op, now int64) Outcome {
 		if op.updates("owner") {
 			owner = strOr(op.Ref)
 		}
+		var a acc
+		if m.BadgeSys[id] && !op.Sys {
+			a.add("sys-update", EcAny)
+		}
 		if owner != cur {
 			if owner == "" {
-				return reject("owner-empty", EcAny)
+				a.add("owner-empty", EcAny)
+			} else if _, ok := m.People[owner]; !ok {
+				a.add("owner-missing", EcNotFound)
 			}
-			if _, ok := m.People[owner]; !ok {
-				return reject("owner-missing", EcNotFound)
-			}
+		}
+		if a.bad() {
+			return a.out()
 		}
 		m.Badges[id] = owner
 		return Outcome{OK: true, Events: []Ev{{StBadges, EvUpdate, id, m.snapOf(StBadges, id), false}}}
@@ -777,6 +802,13 @@ func (m *Model) applyDelete(op Op) Outcome {
 				break
 			}
 		}
+		for bid, o := range m.Badges {
+			if o == id && m.BadgeSys[bid] && !op.Sys {
+				// the cascade would delete a system entity from an ordinary context
+				rejAdd("sys-delete-cascade", EcAny)
+				break
+			}
+		}
 		if a.bad() {
 			return a.out()
 		}
@@ -799,6 +831,7 @@ func (m *Model) applyDelete(op Op) Outcome {
 			out.Events = append(out.Events, Ev{StBadges, EvDelete, bid, m.snapOf(StBadges, bid), false})
 			out.Deleted = append(out.Deleted, IdRef{StBadges, bid})
 			delete(m.Badges, bid)
+			delete(m.BadgeSys, bid)
 		}
 		for _, nid := range nids {
 			out.Events = append(out.Events, Ev{StNotes, EvDelete, nid, m.snapOf(StNotes, nid), false})
@@ -829,8 +862,12 @@ func (m *Model) applyDelete(op Op) Outcome {
 		if _, ok := m.Badges[id]; !ok {
 			return reject("absent", EcNotFound)
 		}
+		if m.BadgeSys[id] && !op.Sys {
+			return reject("sys-delete", EcAny)
+		}
 		ev := Ev{StBadges, EvDelete, id, m.snapOf(StBadges, id), false}
 		delete(m.Badges, id)
+		delete(m.BadgeSys, id)
 		return Outcome{OK: true, Events: []Ev{ev}, Deleted: []IdRef{{StBadges, id}}}
 	case StNotes, StTickets:
 		tbl := m.Notes
@@ -886,13 +923,26 @@ func (m *Model) applyDeleteWhere(op Op) Outcome {
 				ids = append(ids, id)
 			}
 		}
+	case StPeople, StStaff, StPX:
+		// query  name = "<Q>"  through the named store view
+		for id, p := range m.People {
+			if p.Name == op.Q && (op.S != StStaff || p.HasStaff) {
+				ids = append(ids, id)
+			}
+		}
 	default:
 		panic("model: deleteWhere on " + op.S)
 	}
 	sort.Strings(ids)
 	out := Outcome{OK: true}
 	for _, id := range ids {
-		o := m.applyDelete(Op{K: "delete", S: op.S, Id: id, Sys: op.Sys})
+		dst := op.S
+		if dst == StPX && !m.People[id].HasPX {
+			// DeleteWhere through the extended store reaches DeleteById of that store, which delegates to the parent:
+			// for an entity without extension data that is the operation no property specifies
+			dst = StPeople
+		}
+		o := m.applyDelete(Op{K: "delete", S: dst, Id: id, Sys: op.Sys})
 		if !o.OK {
 			return o
 		}
